@@ -153,8 +153,8 @@ def c09(tier, seed):
 def c20(tier, seed):
     q = tier == "quick"
     return [
-        MC("Gen_Paths", dict(Groups="={}"), invariants=["AllocBound", "RoundTrip", "NumKeysNamed"], label="MC_Paths/rule"),
-        GEN("Gen_Paths", {}, "paths", label="Gen_Paths/spellings", min_cases=1000),
+        MC("Gen_Paths", dict(Groups="={}"), invariants=["AllocBound", "RoundTrip", "NumKeysNamed", "BracketsAreNames"], label="MC_Paths/rule"),
+        GEN("Gen_Paths", {}, "paths", label="Gen_Paths/spellings", min_cases=5000),
         TRACE("Trace_Paths", "paths", n=3000 if q else 60000, label="Trace_Paths/random-literals",
               trace_file="trace_paths.ndjson"),
     ]
@@ -219,6 +219,10 @@ def c02(tier, seed):
         # settings with ${...} that are copies of one another (merged / embedded *Config): each is evaluated in ITS tree
         MC("Gen_VarShare", dict(NameTab="<-TabShare", Groups="={}"), invariants=["Independent"], label="MC_VarShare/independent"),
         GEN("Gen_VarShare", dict(NameTab="<-TabShare", Groups="={}"), "varshare", known_const=None, label="Gen_VarShare/copies-of-one-setting", min_cases=8),
+        # the layers a reference falls through: Env configurations with references of their own, resolvers of every kind
+        # (Resolve(fn), ResolveEnv, ResolveNOOP, one answering with the empty text) in every order
+        MC("Gen_VarLayers", dict(NameTab="<-TabLayers", Groups="={}"), invariants=["TypeOK", "ResolverOrder"], label="MC_VarLayers/resolver-order"),
+        GEN("Gen_VarLayers", dict(NameTab="<-TabLayers"), "varexp", label="Gen_VarLayers/envs-x-resolver-kinds", min_cases=15000),
     ]
 
 
@@ -231,6 +235,13 @@ def c08(tier, seed):
         MC("Gen_VarExp", var_mc(tier), invariants=["NoFalseCycle", "FlattenReturns"], label="MC_VarExp/no-false-cycle"),
         varexp_gen(tier),
         GEN("Gen_VarMixed", dict(NameTab="<-TabMixed"), "varexp", label="Gen_VarMixed/node-shapes", min_cases=500),
+        # a name that is active in the root is another reference inside an Env configuration; a cycle through two Env
+        # configurations is still a cycle; a time.Duration field and a string field of ONE struct using the same variable
+        MC("Gen_VarLayers", dict(NameTab="<-TabLayers", Groups="={}"), invariants=["TypeOK", "NoCrossTreeFalseCycle", "CrossEnvCycleReported"],
+           label="MC_VarLayers/cycles-across-trees"),
+        MC("Gen_VarLayers", dict(NameTab="<-TabLayers", Groups="={}"), invariants=["NameKeyedFalseCycle"], expect_violation=True,
+           label="MC_VarLayers/refute-ActiveKeyedByName"),
+        GEN("Gen_VarLayers", dict(NameTab="<-TabLayers"), "varexp", label="Gen_VarLayers/envs-x-resolver-kinds", min_cases=15000),
     ]
 
 
@@ -362,26 +373,39 @@ ASSUME_COMMON = [
 STORE_RULE = ("Gen_Store: every transition of the heap/handle state machine to depth %s over the name/index/fragment "
               "universes of StoreUniverses.tla (shortest history + operation + expected result and projection), replayed through "
               "the public API; Trace_Store: seeded random sessions (25 operations, up to 5 handles, merges with all policies, "
-              "embedded configs, SetChild, Parent) recorded from the real code and validated by TLC. "
+              "embedded configs, dotted-key fragments, SetChild, Parent) recorded from the real code and validated by TLC; the universes hold "
+              "names with and without separator, the confusable spellings (path c.d vs. literal key 'c.d'), indices -1, 0, 2 and 2000 (beyond "
+              "MaxIdx), empty lists, embedded root and non-root configs, an ordered struct with a dotted sibling, list churn to depth 5 (6). "
               "non-trivial = the operation changed the state or returned an error; distinct by (history, operation)")
 
 NORM_RULE = ("Gen_Normalize: every ordered input of <= 3 entries over 5 overlapping dotted keys x value shapes, and every "
              "partial flattening of every tree of the bounded universe, each built as reflect.StructOf struct (exact visiting "
              "order), map[string]interface{}, map[interface{}]interface{}, typed map/slice, pointers, nested *Config and "
-             "fixed-size arrays; Trace_Normalize: random trees (depth<=4), random flattening/representation. "
+             "fixed-size arrays, and additionally spelled with the path separators '/' and '::'; Trace_Normalize: random trees (depth<=4), "
+             "random flattening/representation. "
              "non-trivial = at least two entries; distinct by input")
 
 VAR_RULE = ("Gen_VarExp: every assignment of expression shapes (literal, ${x}, repeated ${x}${x}, prefix+ref, ${x:d}, ${x:${y}}, "
             "${x:+y}, ${x:?m}, ${${x}}, ${x:+y}${x}, typed number) to the settings a, b, c and of 5 shapes to the nested n.k "
-            "(incl. a cycle through the sub-dictionary) x Env set-ups (none, one, two in both orders, a name known to both) x "
-            "resolver set-ups (none, one knowing nothing, one, two in both orders); per world String(), typed Unpack of one field, "
-            "Has, CountField, Child for six names, Unpack of the whole config, FlattenedKeys and CompareConfigs - every world in a "
-            "crash-isolated child process. non-trivial: every world; distinct by world")
+            "(incl. a cycle through the sub-dictionary, a multi-segment name through a reference-valued setting a.k, a dotted name with a "
+            "missing first segment q.k), a fixed list l: [${b}, {x: ${c}}] x Env set-ups (none, one, two in both orders, a name known to both) x "
+            "resolver set-ups (none, one knowing nothing, one, two in both orders, one whose texts the value parser turns into a number, a "
+            "bool and a list); per world String(), typed Unpack of one field (interface{} and string typed), Has, CountField, Child for "
+            "eight names, Unpack of the whole config (also in statically cyclic worlds), Unpack of n into a recursive struct type where n.k "
+            "leads back to n, FlattenedKeys and CompareConfigs - every world in a crash-isolated child process; Gen_VarMixed: nodes with "
+            "named and indexed entries / dictionaries / lists whose two settings fail in different ways, read setting by setting, as a "
+            "whole and by ONE Unpack into a struct with five fields (a name used twice, a diamond over a container); Gen_VarShare: copies "
+            "of one ${...} setting in two trees (merged, embedded template, Env). non-trivial: every world; distinct by world")
 
 REIFY_RULE = ("Gen_Reify: target struct{G int; F T (validate:v); H int} built with reflect.StructOf, T in {int, *int, In, *In, []int, []In, "
-              "map[string]int, map[string]In} (In{X int min=2; Y int}), v in {none, nonzero, positive, min=2, max=5, required}, 2-4 pre-filled "
-              "values per type, 21 configuration shapes for f (absent, nil, ints, unparsable text, objects, lists, nested objects, failing "
-              "elements) x 3x3 shapes for g/h (incl. a failing one after F succeeded) = 29 484 cases; compared: outcome class, every field "
+              "map[string]int, map[string]In, two map types with InitDefaults} (In{X int min=2; Y int} in four variants: plain, InitDefaults with a "
+              "valid / an invalid default, Validate()), v in {none, nonzero, positive, min=2, max=5, required} (thorough: also pairs and a "
+              "triple), slice policies default / append / prepend / replace, 3-5 pre-filled values per type, 25 configuration shapes for f "
+              "(absent, nil, ints, unparsable text, objects, lists, nested objects, failing elements, the value Validate() rejects) x 3x3 "
+              "shapes for g/h (incl. a failing one after F succeeded) = 201 150 (335 250) cases; Gen_Validators: 12 kind classes x tags in "
+              "every parameter syntax x defaults x settings in every syntax; Gen_TagPol: global policy x struct tags at two levels x lists; "
+              "Gen_Faults: (struct type, value) x site x fault kind, built by NewFrom and by two merges, Unpack and typed getter; Trace_Pack: "
+              "random struct types with one random fault each; compared: outcome class, every field "
               "value incl. nil-vs-empty, the dotted path quoted in the error, ucfg.Error with Reason and Class, target untouched on error. "
               "non-trivial: every case; distinct by (type, validator, pre-fill, config)")
 
@@ -393,7 +417,11 @@ CHECKS = {
                      "and FlagValue.Set, every string of <= 6 (7) characters over $ { } : + ? a . stored under VarExp and read in seven ways with the "
                      "goroutine count compared, random 6-25 character parser inputs under six configs - all in child processes with a deadline; 31 "
                      "adversarial names x 12 indices (negative, MaxIdx, 2^31, 2^62, MaxInt64, MinInt64) x 5 option sets through every getter, setter, "
-                     "Has, Remove, Child, CountField with the allocated list length compared with MaxIdx+1; 40 unpack targets (nil, typed nil, chan, "
+                     "Has, Remove, Child, CountField with the allocated list length compared with MaxIdx+1 (setters with idx up to 2^62 in child "
+                     "processes, SetChild(nil)); the store machine's core and list-churn universes and random sessions with the full (name, idx) "
+                     "sweep; Gen_Targets: 100 target types (every primitive kind, named primitive types, pointers, slices, arrays, maps, "
+                     "collections of pointers, custom unpackers and lookalikes, interface-typed fields, interface{}, chan / func / complex) x 6 "
+                     "validators x 17 setting shapes x zero / allocated / bare target, in child processes with a deadline; 40 unpack targets (nil, typed nil, chan, "
                      "func, complex, non-string-keyed maps, nested pointers, unexported fields) x 4 sources; 15 unsupported merge sources. "
                      "non-trivial: every case; distinct by request",
                 exhaustive=False,
@@ -402,14 +430,18 @@ CHECKS = {
     "C18": dict(stages=c18, family="loaders",
                 rule="Gen_Loaders: documents {k1: v1, c: v2} with k1 in {a, a.b, 'k k'}, v1 over 15 awkward strings (yes, ~, 2001-01-01, 1:30, null, "
                      "'', 1e3, 0x1f, a$b, ...), 5 boundary numbers, booleans, null, nested objects and lists; each rendered compact and indented and "
-                     "loaded by yaml/json/hjson NewConfig and NewConfigWithFile, with and without PathSep and VarExp (24 loads per rendering); "
+                     "loaded by yaml/json/hjson NewConfig and NewConfigWithFile, with and without PathSep and VarExp (24 loads per rendering); an "
+                     "error is provoked about every setting (file named iff loaded from a file) and every number is read through Uint / Int / "
+                     "Float / Bool and compared with the exact value of the document's token; "
                      "Trace_Normalize: random documents (48 awkward strings, 17 awkward keys, 15 numbers) through a random front-end. "
                      "non-trivial: every document; distinct by document",
                 assumptions=ASSUME_COMMON + ["the YAML, JSON and HJSON decoders are third-party code outside the specification; the documents are JSON text, which all three accept"]),
     "C11": dict(stages=c11, family="readers",
                 rule="the worlds of Gen_VarExp (references, repeated references, splices, defaults, Env configs, resolvers); per world: nine read "
-                     "operations (String x5, Unpack into map, Unpack into a struct capturing a *Config, Has/CountField/Child/GetFields/Path, use "
-                     "as merge source, typed getters) each followed by a name-free reflective deep hash of everything reachable from the config; "
+                     "operations (String x5, Unpack into map, Unpack into a struct capturing a *Config, three Unpacks into the same capturing struct, "
+                     "Has/CountField/Child/GetFields/Path, use as merge source - directly, with MetaData, embedded (root and sub-config) in a "
+                     "list, an ordered struct and a map with dotted siblings - typed getters) each followed by a name-free reflective deep hash of everything reachable from the config; "
+                     "the store machine's merge universe (source untouched, no sharing) checked by TLC and replayed; "
                      "re-reads under a different resolver; 8-32 goroutines x 3 rounds of all reads on a FRESH shared config compared with the "
                      "sequential answers and with UcfgVarExp's expectation; the same under the Go race detector. "
                      "non-trivial: every world; distinct by world",
@@ -421,13 +453,17 @@ CHECKS = {
     "C06": dict(stages=c06, family="pack",
                 rule="Gen_Pack: two-field structs over 15 field types (7 primitive kinds incl. Duration, *int64, *struct with a dotted tag, "
                      "slices, fixed array, maps of strings and of structs, nested struct) x tags {default, renamed, dotted, inline, ignore} x "
-                     "extreme values (int64 min, uint64 max, 'a$b.c,d{e}', nil and empty collections) = 52 510 well-formed (type, value) pairs; "
+                     "extreme values (int64 min, uint64 max, 'a$b.c,d{e}', nil and empty collections), positional structs (integer-literal tags), all 12 "
+                     "numeric kinds x their boundaries as field / pointer / slice / array / map element = 73 795 well-formed (type, value) pairs; "
+                     "Trace_Pack: random struct types (depth <= 3) and values; "
                      "compared: the packed tree and the round-tripped value (nil ~ empty). non-trivial: every pair; distinct by (type, value)",
                 assumptions=ASSUME_COMMON + ["generated struct types are well-formed (no two fields resolving to the same or prefix-related names)"]),
     "C03": dict(stages=c03, family="conv",
                 rule="Gen_Convert: 4 source kinds (Go int64, uint64, float64, decimal text) x (19 named boundaries x offsets -2..2 x "
                      "{whole, half} + NaN, +Inf, -Inf) x 13 targets (int8..int64, int, uint8..uint64, uint, float32/64, Duration), each through "
-                     "a struct field, a pointer field, a named type, a ${reference} and - for 64-bit targets - the typed getter; pairs the "
+                     "a struct field, a pointer field, a named type, a ${reference}, a splice (${x:0}, through text), the typed setters and - for "
+                     "64-bit targets - the typed getter; Gen_ConvText: 44 texts in every strconv syntax, bools and boundary numbers into bool, "
+                     "string and numeric targets; pairs the "
                      "source kind cannot represent exactly are skipped (counted); Trace_Convert: random bit patterns classified with math/big. "
                      "non-trivial: every representable combination; distinct by (source kind, number, target)",
                 assumptions=ASSUME_COMMON + ["the boundary table (names -> exact values) is checked at start-up against math.MaxInt64 etc.; exactness of the stored value is decided with math/big"]),
@@ -438,37 +474,44 @@ CHECKS = {
     "C19": dict(stages=c19, family="flags",
                 rule="Gen_Flags: every sequence of <= 3 arguments over 14 argument shapes (dotted/indexed keys; scalar, comma list, "
                      "[list], {object}, object with dotted key, bare key, empty value, malformed values) x 7 option sets (no separator, "
-                     "PathSep with each merge policy, autoBool off); Trace_Flags: random sequences of <= 8 arguments. "
+                     "PathSep with each merge policy, autoBool off), keys starting with a list index; Gen_FlagFiles: sequences of <= 2 (3) FILE "
+                     "arguments over 8 files (two loaders by extension, optional default loader, a malformed and a loader-less file) x 5 option "
+                     "sets; Trace_Flags: random sequences of <= 8 arguments. "
                      "non-trivial = at least two arguments; distinct by (arguments, options)",
                 assumptions=ASSUME_COMMON),
     "C17": dict(stages=c17, family="parse",
                 rule="Gen_Parse: every character string of length <= 4 (quick) / 5 (thorough) over the 16-character alphabet "
                      "[ ] { } , : \" ' \\ space z 9 - n t / under DefaultConfig, EnvConfig, NoopConfig and IgnoreCommas, plus JSON documents "
-                     "of a bounded grammar rendered compact and indented; Trace_Parse: random JSON documents written by encoding/json. "
+                     "of a bounded grammar (incl. the 64-bit boundary numbers) rendered in five whitespace layouts and parsed under DefaultConfig and "
+                     "with IgnoreCommas; Trace_Parse: random JSON documents written by encoding/json in five layouts. "
                      "non-trivial = at least two characters, one of them special; distinct by input text",
                 assumptions=ASSUME_COMMON + ["number tokens are concretised with strconv (the definition of the syntax) in the harness"]),
     "C20": dict(stages=c20, family="paths",
                 rule="Gen_Paths: 42 spellings (decimal, signs, 0x/0o/0b, leading zeros, underscores, +-2^63, 2^63, 2^64, near-numeric, "
                      "empty) x MaxIdx {0,2,5,1024} x EnableNumKeys x position (single, first, middle, last), each as map key, struct "
-                     "tag and setter name with getter/Has/Remove read-back; Trace_Paths: random literals in random syntax. "
+                     "tag, setter name and setter name + idx with getter/Has/Remove read-back; Trace_Paths: random literals in random syntax. "
                      "non-trivial: every case (each decides index-vs-name); distinct by (key, MaxIdx, EnableNumKeys)",
                 assumptions=ASSUME_COMMON + ["strconv.ParseInt(s,0,64) is the definition of 'integer literal'; the spec's spelling table is checked against it at start-up"]),
     "C05": dict(stages=c05, family="norm", rule=NORM_RULE, assumptions=ASSUME_COMMON),
     "C09": dict(stages=c09, family="norm", rule=NORM_RULE + "; every map-built case is repeated K times (8 quick / 32 thorough) "
-                "with the Go maps rebuilt in a different insertion order and all outcomes compared; merges likewise",
+                "with the Go maps rebuilt in a different insertion order and all outcomes compared; merges likewise; the worlds of Gen_VarExp "
+                "and Gen_VarMixed (settings that reference each other) created and unpacked 13 (33) times with ONE outcome demanded",
                 assumptions=ASSUME_COMMON + ["the Go runtime's map iteration order is reached by varying insertion order and by its own per-iteration randomisation"]),
-    "C12": dict(stages=c12, family="store", rule=STORE_RULE % "3 (quick) / 4 (thorough)", assumptions=ASSUME_COMMON),
-    "C15": dict(stages=c15, family="store", rule=STORE_RULE % "3 (quick) / 4 (thorough)", assumptions=ASSUME_COMMON),
-    "C10": dict(stages=c10, family="store", rule=STORE_RULE % "2-3 (quick) / 3-4 (thorough)", assumptions=ASSUME_COMMON),
+    "C12": dict(stages=c12, family="store", rule=STORE_RULE % "3 (both tiers; depth 4 does not finish within 45 minutes)", assumptions=ASSUME_COMMON),
+    "C15": dict(stages=c15, family="store", rule=STORE_RULE % "3 (both tiers)", assumptions=ASSUME_COMMON),
+    "C10": dict(stages=c10, family="store", rule=STORE_RULE % "3 (merge universe, both tiers)" + "; Gen_VarShare: source and destination holding ${...} copies read in both orders", assumptions=ASSUME_COMMON),
     "C01": dict(stages=c01, family="merge",
                 rule="Gen_Merge: every (destination, source, global policy) over the bounded tree universe "
-                     "(MergeUniverses.tla), each replayed with the source as map, reflect.StructOf struct and *Config; "
+                     "(MergeUniverses.tla), each replayed with the source as map, reflect.StructOf struct and *Config (and, for equal operands, as the "
+                     "destination itself), the generic view AND the positions of explicit nils compared; sources holding a reference to one of "
+                     "their own containers; "
                      "Trace_Merge: seeded random trees (depth<=4) recorded from the real Merge and validated by TLC. "
                      "non-trivial = both operands share a key or both have a list part; distinct by (a,b,policy,options)",
                 assumptions=ASSUME_COMMON),
     "C16": dict(stages=c16, family="merge",
                 rule="Gen_Merge: pairs of trees carrying the same list-valued name at two depths x global policy x "
-                     "per-field options (named paths, ** wildcards, pairs of options); Trace_Merge with random options. "
+                     "per-field options (named paths, ** wildcards, pairs of options); the same with a REFERENCE to a container at the per-field "
+                     "path; per-field paths through list indices over lists of lists / dictionaries; Trace_Merge with random options. "
                      "non-trivial = operands share a slot; distinct by (a,b,policy,options)",
                 assumptions=ASSUME_COMMON),
 }
